@@ -363,6 +363,13 @@ class Interp:
                 return len(args[0])
             if name in ('list', 'tuple') and len(args) == 1 and isinstance(args[0], (list, tuple)):
                 return list(args[0]) if name == 'list' else tuple(args[0])
+            # min / max of endpoints are order-theoretic: they select one of their arguments by comparisons only, so the
+            # behaviour still depends on the ordering of the integers alone (the rank-vector domain stays exact)
+            if name in ('min', 'max') and not kwargs and len(args) >= 2 and all(_isint(a) for a in args):
+                return min(args) if name == 'min' else max(args)
+            if name in ('min', 'max') and not kwargs and len(args) == 1 and isinstance(args[0], (list, tuple)) and args[0] \
+                    and all(_isint(a) for a in args[0]):
+                return min(args[0]) if name == 'min' else max(args[0])
             if name in ('list', 'tuple', 'dict') and not args and not kwargs:
                 return {'list': [], 'tuple': (), 'dict': {}}[name]
             if name in self.externals:
